@@ -145,12 +145,15 @@ CLAIMED["C04"] = dict(
 
 CLAIMED["C07"] = dict(
     text=("Model of get_protein_group_results as a function run : state -> input -> shuffles -> oracles -> state x rows, with "
-          "every field the long-lived strategy objects keep between calls threaded explicitly. Theorems: the result depends on "
-          "the incoming state only through the competition's seen-set; every call (also a failing one) leaves the seen-set empty; "
-          "hence a call after ANY history of earlier calls on the same configuration object equals a fresh call; razor tables are "
+          "every field the long-lived strategy objects keep between calls threaded explicitly. Theorems: the result does not depend on "
+          "the incoming state AT ALL (the competition clears its seen set before the loop - repair D15 - so not even the set an aborted "
+          "call left behind is read); every call (also a failing one) leaves the seen-set empty; "
+          "hence a call after ANY history of earlier calls on the same configuration object - completed, failed, or ABORTED at an "
+          "arbitrary point leaving an arbitrary state - equals a fresh call; razor tables are "
           "unread without the razor option. PARTIAL: the hash seed, numpy's RNG stream and networkx internals are runtime "
           "behaviour the model cannot exhibit; they are explored by the correspondence: all 27 shipped methods against the model "
-          "with recorded oracles, random call histories on a re-used MethodConfig versus fresh ones, and CLI runs under 4 (quick) "
+          "with recorded oracles, random call histories on a re-used MethodConfig versus fresh ones (two in three with a call interrupted inside the competition "
+          "loop, a quarter of the calls started on a directly dirtied seen set), and CLI runs under 4 (quick) "
           "/ 8 (thorough) PYTHONHASHSEED values compared byte for byte (single-method and three-method command lines, every written file)."),
     note=COMMON_NOTE + "PARTIAL (interpreter hash seed, numpy RNG stream, networkx internals observed not proved). Scores, PEP "
          "cutoffs, shuffles and splitter answers are recorded oracles here (own models: C05, C17, C02/C14, C04). Axioms: none.",
